@@ -149,7 +149,8 @@ def main(tier, replay=None):
                     sc.restore()
                     orders = s2.listing_orders(sc.proj)
                     mt = s2.model_trace(drv, c, "checkout %s 0" % ("c" if "--copy" in c["cmd"] else "l"), orders)
-                    a, b = s2.renumber(canon), s2.renumber(mt or [])
+                    # siblings of one manifest are handed out in Go map order (random): compared up to the order of siblings
+                    a, b = s2.sibling_canon(s2.renumber(canon)), s2.sibling_canon(s2.renumber(mt or []))
                     if a != b:
                         import difflib
                         d = [l for l in difflib.unified_diff(b, a, "model", "implementation", lineterm="", n=1)][:30]
